@@ -1,0 +1,22 @@
+//go:build verif
+// +build verif
+
+package json
+
+import (
+	"sync/atomic"
+
+	"github.com/goccy/go-json/internal/decoder"
+	"github.com/goccy/go-json/internal/encoder"
+)
+
+// VerifCounters reports how often the verification hooks ran (build tag verif only), so that a harness
+// can show the hooks were live.
+func VerifCounters() map[string]uint64 {
+	return map[string]uint64{
+		"encoder_slot_checks":    atomic.LoadUint64(&encoder.VerifSlotChecks),
+		"encoder_codeset_checks": atomic.LoadUint64(&encoder.VerifCodeSetChecks),
+		"decoder_slot_checks":    atomic.LoadUint64(&decoder.VerifSlotChecks),
+		"decoder_slots_owned":    atomic.LoadUint64(&decoder.VerifSlotsOwned),
+	}
+}
